@@ -81,6 +81,15 @@ def op_swaps(draw, n):
             fixed = [m for m in range(n) if m not in (a, b)]
             pairs += [[m, m] for m in fixed[:draw(st.integers(0, len(fixed)))]]
         return ["swaps", pairs]
+    if n >= 4 and draw(st.integers(0, 2)) == 0:
+        # a product of two disjoint cycles (2+2, 2+3, 3+3 ...): the cycles are independent of each other, which is
+        # what cycle-wise bookkeeping in the rewrites has to get right
+        modes = draw(st.permutations(range(n)))
+        a = draw(st.integers(2, max(2, min(3, n - 2))))
+        b = draw(st.integers(2, max(2, min(3, n - a))))
+        c1, c2 = list(modes[:a]), list(modes[a:a + b])
+        pairs = [[c[i], c[(i + 1) % len(c)]] for c in (c1, c2) for i in range(len(c))]
+        return ["swaps", pairs]
     keys = draw(st.lists(st.integers(0, n - 1), unique=True, min_size=0, max_size=n))
     vals = draw(st.permutations(keys))
     return ["swaps", [[k, v] for k, v in zip(keys, vals)]]
@@ -91,7 +100,7 @@ def op_unitary(draw, n, kinds=None):
     m = draw(st.integers(0, n - 1))
     k = draw(st.integers(1, n - m))
     kind = draw(st.sampled_from(kinds or ["haar", "haar", "perm", "diag", "identity",
-                                          "dft", "block", "near9", "real"]))
+                                          "dft", "block", "near9", "real", "hadamard"]))
     return ["unitary", m, kind, k, draw(st.integers(0, 10 ** 6))]
 
 
@@ -294,9 +303,11 @@ def addition_tree(draw, min_n=2, max_n=5, max_adds=4, max_herald_photons=1, loss
                 child = {"n": ck, "ops": [["unitary", 0, "haar", ck, draw(st.integers(0, 999))]]}
             ops.append(["add", child, draw(st.integers(0, n - ck)), draw(st.booleans()), None])
     ops += draw(st.lists(primitive(n, lossy), max_size=2))
-    if draw(st.integers(0, 3)) == 0 and n >= 2:
+    if draw(st.integers(0, 2)) == 0 and n >= 2:
+        # a herald declared on the parent itself, anywhere between the additions; also in the one-argument
+        # form herald(n, mode) (output mode defaulted), which takes its own path through the mode mapping
         i = draw(st.integers(0, n - 1))
-        o = draw(st.integers(0, n - 1))
+        o = draw(st.one_of(st.none(), st.integers(0, n - 1)))
         ops.insert(draw(st.integers(0, len(ops))), ["herald", draw(st.integers(0, 1)), i, o])
     return {"n": n, "ops": ops}
 
